@@ -69,6 +69,10 @@ def scripts(n):
     out.append(['start', 'qa', 'qfin', 'wait'])
     out.append(['qa', 'start', 'qfin', 'wait'])
     out.append(['qa', 'qa', 'start', 'sync', 'stop'])
+    out.append(['start', 'qfin', 'stop'])
+    out.append(['start', 'qfin', 'sync', 'stop'])
+    out.append(['qfin', 'start', 'sync', 'stop'])
+    out.append(['qfin', 'start', 'stop', 'stop'])
     return out
 
 
